@@ -30,6 +30,8 @@ CheckCase(o) ==
       [] o.kind = "energy" ->
             (IF ~o.observed THEN {V(o, "C10.RunCompletes")} ELSE
              IF o.growth > EnergyGrowth THEN {V(o, "C10.EnergyErrorBounded")} ELSE {})
+      [] o.kind = "coarse" ->       \* a step handed back shorter than requested is the method's map of the size it reports
+            (IF o.shortTolUnits > 1 THEN {V(o, "C10.AcceptedStepIsTheMapOfItsOwnSize")} ELSE {})
       [] OTHER -> {V(o, "C10.UnknownCase")}
 Init == i = 1 /\ bad = {}
 Next == /\ i <= Len(Cases)
